@@ -229,9 +229,21 @@ def _allocator(ctx):
     domr = cfg.dominators(r)
     pops = [bb for bb, t in calls_to(r, "Vec::pop")]
     na = [bb for bb, i, s in agg_sites(r, ERR, "NoAvailableResource")]
-    cm = [bb for bb, i, s in binop_sites(r, ("Lt", "Le", "Gt", "Ge")) if (dr.slice_operand(s["rv"]["b"]).has_call("get") and any(r.local_name(l) == "free_proxy_num" for l in dr.slice_operand(s["rv"]["a"]).locals))]
+    cm = [bb for bb, i, s in binop_sites(r, ("Lt", "Le", "Gt", "Ge")) if (dr.slice_operand(s["rv"]["b"]).has_call("get") and (dr.slice_operand(s["rv"]["a"]).has_call("sum") or dr.slice_operand(s["rv"]["a"]).has_call("len")) and bool(agg_sites(r, ERR, "NoAvailableResource")) and any(cfg.reaches(r, bb, x) for x, _i, _s in agg_sites(r, ERR, "NoAvailableResource")))]
     if ctx.floor("C12.D2", "remove_redundant_chunks trimming", len(pops), 1) and ctx.floor("C12.D2", "remove_redundant_chunks resource check", len(cm), 1):
         ctx.check(bool(na) and all(not cfg.reaches(r, c, p) for c in cm for p in pops), "C12.D2", "allocator:check-after-trimming", site(r, cm[0]), ok="the free-proxy count is checked after the largest host was trimmed", bad="remove_redundant_chunks checks the free-proxy count before trimming the largest host: the trimmed pool can be smaller than the request")
+
+
+def _cmp_capture_with_param(F, c, cd, t):
+    """a comparison between a captured String of the enclosing function (the host chosen first) and the closure's own
+    argument (a candidate host)"""
+    from ..lib import capture_types
+    s0 = cd.slice_operand(t["args"][0]); s1 = cd.slice_operand(t["args"][1])
+    for a_, b_ in ((s0, s1), (s1, s0)):
+        caps = capture_types(F, c, a_.captures)
+        if any("String" in ty or "str" in ty for ty in caps.values()) and any(l >= 2 for l, _ in b_.params) and not b_.captures:
+            return True
+    return False
 
 
 def _two_hosts(ctx):
@@ -244,7 +256,7 @@ def _two_hosts(ctx):
         if c.locals[0]["ty"] != "bool":
             continue
         cd = DefUse(c)
-        nes = [(bb, t) for bb, t in c.calls() if callee_decl(t) in ("std::cmp::PartialEq::ne", "std::cmp::PartialEq::eq") and ("first_host" in cd.slice_operand(t["args"][0]).captures or "first_host" in cd.slice_operand(t["args"][1]).captures)]
+        nes = [(bb, t) for bb, t in c.calls() if callee_decl(t) in ("std::cmp::PartialEq::ne", "std::cmp::PartialEq::eq") and _cmp_capture_with_param(F, c, cd, t)]
         if nes:
             cands.append((c, nes))
     if not cands:
